@@ -50,7 +50,7 @@ PROPS = {
         "audit_kinds": ["map_write", "map_read", "time_check"],
         "corpus": ["C01", "D6", "D7", "D12"],
         "assumptions": COMMON_ASSUME,
-        "level_text": "Unsync: proved for every configuration, hash function, weigher and history (C01_unsync: the oracle that tracks, per key, the value of the most recent insert and whether it has been invalidated accepts every trace of the model; proof by a coupling invariant between the model state and that bookkeeping, preserved by every operation). Sync: proved for the concurrent cache driven by one thread (C01_sync): every history, every placement of sync(), any number of queued operations, including the maintenance runs that insert/get/invalidate perform themselves; proof by frame lemmas over all of maintenance (the map only shrinks, last_modified never changes, last_accessed only moves forward to a queued hit) and a coupling invariant. Many threads: for every interleaving of the many-thread model ConcS.lean (calls split into map step / maintenance run / enqueue, operations ordered by their map steps) the same oracle accepts the linearised trace (ConcS_C01, and ConcF_C01 for the finest model). At the finest granularity (ConcF.lean: every map access of maintenance its own step) a maintenance micro-step only ever deletes map bindings, never writes one (ConcF_maintenance_only_deletes); the seeded 'put the victims back' change, kept as a variant, leaves a stale value in the map (ConcF_counterexample_put_back). Real threads are C02's concern. An update's clock reading and its map write as the two steps they are (ConcT.lean: any number of threads; between the reading and the write other threads advance the clock, update the key with a later reading, complete an invalidate_all): with the code's plain store of the reading into the shared timestamp — the store itself is translated from entry_info.rs on every run (group Stamps) — a value whose insert read the clock at r is never returned at a reading >= r + ttl nor after an invalidate_all with a strictly later reading has completed, for every interleaving (ConcT_run_fresh); with a forward-only store (the seeded changes C01h, C05i) both fail (ConcT_counterexample_ttl, ConcT_counterexample_watermark).",
+        "level_text": "Unsync: proved for every configuration, hash function, weigher and history (C01_unsync: the oracle that tracks, per key, the value of the most recent insert and whether it has been invalidated accepts every trace of the model; proof by a coupling invariant between the model state and that bookkeeping, preserved by every operation). Sync: proved for the concurrent cache driven by one thread (C01_sync): every history, every placement of sync(), any number of queued operations, including the maintenance runs that insert/get/invalidate perform themselves; proof by frame lemmas over all of maintenance (the map only shrinks, last_modified never changes, last_accessed only moves forward to a queued hit) and a coupling invariant. Many threads: for every interleaving of the many-thread model ConcS.lean (calls split into map step / maintenance run / enqueue, operations ordered by their map steps) the same oracle accepts the linearised trace (ConcS_C01, and ConcF_C01 for the finest model). At the finest granularity (ConcF.lean: every map access of maintenance its own step) a maintenance micro-step only ever deletes map bindings, never writes one (ConcF_maintenance_only_deletes); the seeded 'put the victims back' change, kept as a variant, leaves a stale value in the map (ConcF_counterexample_put_back). Real threads are C02's concern. An update's clock reading and its map write as the two steps they are (ConcT.lean: any number of threads; between the reading and the write other threads advance the clock, update the key with a later reading, complete an invalidate_all): with the code's plain store of the reading into the shared timestamp — the store itself is translated from entry_info.rs on every run (group Stamps) — a value whose insert read the clock at r is never returned at a reading >= r + ttl nor after an invalidate_all with a strictly later reading has completed, for every interleaving (ConcT_run_fresh); with a forward-only store (the seeded changes C01h, C05i) both fail (ConcT_counterexample_ttl, ConcT_counterexample_watermark). On the implementation that window is reached deterministically (inject component, profile stamp: at the clock reading of a scripted whole-call insert another logical thread lets an invalidate_all complete and/or updates the key at later readings; the scripted call's older reading is noted in the trace) and judged by the run-time form of ConcT_run_fresh.",
         "level_note": "Theorems about Unsync.lean and Sync.lean; tie = differential runs (every lookup result compared) + map-site audit. The oracle also judges every implementation trace directly. Traces are judged up to the first internal panic (C08).",
     },
     "C05": {
@@ -421,6 +421,8 @@ for _k in ("C01", "C02", "C03", "C04", "C07", "C08", "C10", "C11"):
 # ConcT_run_fresh (Python oracle "T") beside the C05 oracle
 PROPS["C05"]["components"] = list(PROPS["C05"]["components"]) + [("inject", ["stamp"], 40, 30)]
 PROPS["C05"]["oracle"] = "C05+T"
+PROPS["C01"]["components"] = list(PROPS["C01"]["components"]) + [("inject", ["stamp"], 40, 30)]
+PROPS["C01"]["oracle"] = "C01+T"
 # Tight real-thread loops with an online oracle (harness `hammer`): watermark = a completed
 # invalidate_all is never undone for a later get; mono = completed inserts are never superseded
 # backwards for a reader; syncs = explicit sync() beside the writers' own housekeeping: no panic, exact
